@@ -4,7 +4,7 @@
    functions of Store.v), the layer-B replay "which blocks were acknowledged" computed from what
    the caller saw, the executable well-formedness check of a finished file, and the executable
    guards.  No proofs here. *)
-From GoCar Require Import Bytes Varint Cid Header Frame V2Header Index Store.
+From GoCar Require Import Bytes Varint Cid Header Frame V2Header Index Store StoreSpec.
 
 Definition blk := (bytes * bytes)%type.   (* cid bytes, data *)
 
@@ -44,7 +44,8 @@ Section Step.
   Variable hdrdec : bytes -> option (list bytes * N).
 
   (* kn: 0 blockstore.ReadWrite | 1 storage readable+writable | 2 storage write-only on a WriterAt
-     | 3 storage on a plain io.Writer.  Same dispatch as RunStore.step. *)
+     | 3 storage on a plain io.Writer | 4 storage write-only on a WriterAt without Truncate.
+     Same dispatch as RunStore.step. *)
   Definition fstep (kn : N) (s : wstate) (op : fop) : wstate * out :=
     match op with
     | FPut c d => if kn =? 0 then fbs_put_many s [(c, d)] else st_put s c d
@@ -77,8 +78,23 @@ Definition op_okb (kn : N) (op : fop) : bool :=
 Definition is_finalize (op : fop) : bool :=
   match op with FFinalize | FFinalizeRO => true | _ => false end.
 
+(* what put_one needs to know of the target: kinds 3 and 4 cannot take written bytes back (a plain
+   io.Writer; a WriterAt without a Truncate method), so a partial section means the sticky error
+   without any Truncate call.  After open nothing else in the model looks at the kind. *)
 Definition kind_of (kn : N) : skind :=
-  if kn =? 0 then KBlockstore else if kn =? 3 then KStorage false else KStorage true.
+  if kn =? 0 then KBlockstore else if (kn =? 3) || (kn =? 4) then KStorage false else KStorage true.
+Definition set_kind (s : wstate) (k : skind) : wstate :=
+  mkws (ws_dev s) (ws_idx s) (ws_pos s) (ws_closed s) (ws_finalized s) (ws_roots s) (ws_opts s) k.
+(* open on an empty target.  Kind 4 is a WriterAt (positioned writes, CARv2 allowed) that has no
+   Truncate method: opened like kind 2, then treated by put_one like the plain io.Writer *)
+Definition fopen (kn : N) (o : wopts) (nilroots : bool) (roots : list bytes) (faults : list (option N))
+  : res wstate :=
+  if kn =? 4 then
+    match open_new (KStorage true) o nilroots roots faults with
+    | Ok s => Ok (set_kind s (KStorage false))
+    | Err e => Err e
+    end
+  else open_new (kind_of kn) o nilroots roots faults.
 
 (* ---- fault accounting ------------------------------------------------------------------------- *)
 Definition is_fault (f : option N) : bool := match f with Some _ => true | None => false end.
@@ -276,6 +292,18 @@ Definition spec_get_ok (o : wopts) (st : list blk) (c d : bytes) : bool :=
 (* the CARv1 payload holding [st] *)
 Definition fpayload (nilroots : bool) (roots : list bytes) (st : list blk) : bytes :=
   ld (enc_header (roots_opt nilroots roots) 1) ++ concat (map (fun b => enc_section (fst b) (snd b)) st).
+
+(* ---- the read operations against the reference map of C04 (StoreSpec.v) ------------------------------ *)
+(* what a read operation must answer when the store holds exactly the blocks of [m]; Get needs a
+   readable target (blockstore, storage opened readable+writable) *)
+Definition spec_query (kn : N) (o : wopts) (m : mstate) (q : fop) : option out :=
+  match q with
+  | FHas c => Some (m_has o m c)
+  | FGet c => Some (if (kn =? 0) || (kn =? 1) then m_get o m c else OErr EOther)
+  | FGetSize c => Some (m_getsize o m c)
+  | FKeys => Some (m_keys o m)
+  | _ => None
+  end.
 
 (* ---- side conditions of the theorems (sizes Go cannot exceed anyway) -------------------------------- *)
 Definition op_blocks (op : fop) : list blk :=
